@@ -397,9 +397,24 @@ func c18CheckBoot(cs c18Boot) (msg, sig string) {
 		return fmt.Sprintf("bootstrap of %v/%v conf=%v N=%d is not reproducible: (%v,%v,%v) then (%v,%v,%v)", cs.Num, cs.Den, cs.Conf, cs.N, l1, c1, h1, l2, c2, h2), "bootstrap-reproducible"
 	}
 	minR, maxR := math.Inf(1), math.Inf(-1)
+	zeroDen := false
 	for _, n := range cs.Num {
 		for _, d := range cs.Den {
+			if d == 0 {
+				zeroDen = true
+				continue
+			}
 			minR, maxR = math.Min(minR, n/d), math.Max(maxR, n/d)
+		}
+	}
+	if zeroDen {
+		// a zero denominator has no quotient; the documented substitute keeps every summary a finite number, and the
+		// ordering clause below applies as always
+		minR, maxR = math.Inf(-1), math.Inf(1)
+		for _, v := range []float64{l1, c1, h1} {
+			if math.IsInf(v, 0) {
+				return fmt.Sprintf("bootstrap of %v/%v conf=%v N=%d: (low %v, centre %v, high %v) is not finite", cs.Num, cs.Den, cs.Conf, cs.N, l1, c1, h1), "bootstrap-range"
+			}
 		}
 	}
 	for _, v := range []float64{l1, c1, h1} {
@@ -435,7 +450,7 @@ func c18Bootstrap(c *mc.Check, maxSize int) {
 	vals := []float64{1, 2, 3, 5, 8}
 	confs := []float64{0.001, 0.05, 0.5, 0.8, 0.95, 0.99}
 	ns := []int{1, 2, 10, 11, 100, 1000}
-	f := c.Family("bootstrap", fmt.Sprintf("every pair of non-empty multisets of size ≤%d over %v as numerator and denominator (plus one pair of 100 values) × confidence %v × resample counts %v: two independent computations agree bit for bit; low ≤ centre ≤ high; all three within [min ratio, max ratio] of the samples' values; non-trivial = pairs with ≥2 distinct ratios", maxSize, vals, confs, ns), replay)
+	f := c.Family("bootstrap", fmt.Sprintf("every pair of non-empty multisets of size ≤%d over %v as numerator and denominator (plus one pair of 100 values, and every pair of multisets of size ≤2 over {0, 5}: zero numerators and denominators) × confidence %v × resample counts %v: two independent computations agree bit for bit; low ≤ centre ≤ high; all three within [min ratio, max ratio] of the samples' values; non-trivial = pairs with ≥2 distinct ratios", maxSize, vals, confs, ns), replay)
 	if c.Replaying() {
 		return
 	}
@@ -455,6 +470,28 @@ func c18Bootstrap(c *mc.Check, maxSize int) {
 		big2[i] = 90 + float64(i%13)
 	}
 	sets = append(sets, big1)
+	// cells that hold zeros (allocs/op, B/op): every pair of multisets of size ≤2 over {0, 5}
+	zsets := [][]float64{{0}, {5}, {0, 0}, {0, 5}, {5, 5}}
+	for _, num := range zsets {
+		for _, den := range zsets {
+			for _, cf := range confs {
+				for _, n := range ns {
+					cs := c18Boot{num, den, cf, n}
+					var msg, sig string
+					if p := mc.Catch(func() { msg, sig = c18CheckBoot(cs) }); p != "" {
+						msg, sig = p, "panic"
+					}
+					f.Count(1, 1)
+					if msg != "" {
+						f.Outcome("violation:"+sig, 1)
+						c.Fail(f, sig, cs, msg)
+					} else {
+						f.Outcome("ok", 1)
+					}
+				}
+			}
+		}
+	}
 	mc.ParRange(uint64(len(sets)), 1, c.TimeUp, func(w int, lo, hi uint64) {
 		l := f.Local()
 		for i := lo; i < hi; i++ {
